@@ -22,6 +22,7 @@ import Golib.Proof.C08GcmInv
 import Golib.Proof.C08AesSpec
 import Golib.Proof.C08GcmSpec
 import Golib.Proof.C08Arena
+import Golib.Proof.C08Memo
 import Golib.Model.C08
 import Golib.Gen.FactsC08
 
@@ -276,6 +277,97 @@ theorem c08_arena_value_semantics (C : Cipher) (A : AEAD) (ops : List String)
     rw [(c08_gcm_lens A dst pt key nonce ad hseal hk hn h1).2.2,
       (c08_gcm_lens A dst' pt key nonce ad hseal hk hn h2).2.2]
 
+/-! ### Process-wide state keyed by PART of the input (`Model/C08Memo.lean`)
+
+`c08_history_is_memoryless` says what the specification is: every call a function of its own
+arguments.  The next two theorems are about the CLASS of rewrites that breaks it — a process-wide
+memo of expanded keys / `cipher.Block` / `cipher.AEAD` objects keyed by some identity of the
+configuration — for ANY identity, ANY eviction policy, ANY earlier history of the process. -/
+
+open Golib.C08.Memo in
+/-- (1) INVISIBLE: if the identity separates every two configurations whose objects differ, then
+for every eviction policy that only drops entries, from every sound table (the empty one in
+particular) and for EVERY history, each call gets exactly the object built from its own
+configuration: the memoised program is the memoryless one.
+(2) VISIBLE ON TWO CALLS: if two configurations `c1`, `c2` share the identity but their objects
+differ, then the history `[c1, c2]` gets the SAME object twice from EVERY state of the table —
+whatever the process called before, whatever was evicted — so at least one of the two calls is
+answered with the wrong object; from the empty table it is the second, answered with the first
+call's object.  These two-call histories, for the pairs a partial identity conflates, are what
+the `hist` stream generates (`relatedKeys`, the enumerated grid) and judges call by call. -/
+theorem c08_memo_invisible_iff_identity_separates {Cfg κ Obj : Type} [DecidableEq κ]
+    (ident : Cfg → κ) (build : Cfg → Obj) (evict : Table κ Obj → Table κ Obj) :
+    ((∀ c c', ident c = ident c' → build c = build c') → (∀ t e, e ∈ evict t → e ∈ t) →
+      ∀ cs t, Sound ident build t → run ident build evict t cs = cs.map build) ∧
+    (∀ c1 c2, ident c1 = ident c2 → build c1 ≠ build c2 →
+      (∀ t, run ident build evict t [c1, c2] ≠ [c1, c2].map build) ∧
+      run ident build evict [] [c1, c2] = [build c1, build c1]) := by
+  refine ⟨fun hsep hev cs t ht => run_transparent ident build evict hsep hev cs t ht, ?_⟩
+  intro c1 c2 hid hne
+  refine ⟨fun t => ?_, run_two_calls_fresh ident build evict c1 c2 hid⟩
+  obtain ⟨o, ho⟩ := run_two_calls_same_object ident build evict t c1 c2 hid
+  rw [ho]
+  intro h
+  simp only [List.map_cons, List.map_nil, List.cons.injEq, and_true] at h
+  exact hne (h.1.symm.trans h.2)
+
+open Golib.C08.Memo in
+/-- The GCM helpers through a memo of AEADs (`aesGCMEncryptMemo` / `aesGCMDecryptMemo`: argument
+checks, then the AEAD from the memo, then `Seal` / `Open` on it — which panic when the nonce is
+not of the size the stored AEAD was built for), and the CBC helper through a memo of
+(key schedule, iv).
+(1) Keyed by the WHOLE configuration — key bytes, hence the key length, and nonce size
+(`identFull`; any injective identity) — the memo is invisible: each call, from every sound table,
+answers exactly as the stateless `AESGCMEncrypt` / `AESGCMDecrypt`, and leaves a sound table.
+(2) The partial identities collide on the key families the generator builds: the key without its
+length (C08-J: `k` and `k‖00…00`), the first 16 / first 24 / last 16 bytes (two keys of one
+length that agree there), the key without the nonce size, the key without the iv.
+(3) For an identity that conflates the configurations of two valid calls, made one after the
+other from the empty table: the first call is answered correctly, the second with the FIRST
+call's key and nonce size (CBC: the first call's key and iv) — under C08-J's identity `k‖00…00`
+is sealed under AES-128 with `k`; with the nonce size dropped the second call panics. -/
+theorem c08_memo_keyed_on_part_of_the_input {κ κ' : Type} [DecidableEq κ] [DecidableEq κ']
+    (A : AEAD) (C : Cipher) (ident : GcmCfg → κ) (evict : Table κ GcmCfg → Table κ GcmCfg)
+    (identC : CbcCfg → κ') (evictC : Table κ' CbcCfg → Table κ' CbcCfg) :
+    ((∀ c c', ident c = ident c' → c = c') → (∀ t e, e ∈ evict t → e ∈ t) →
+      ∀ t, Sound ident id t → ∀ dst data key nonce ad,
+        (aesGCMEncryptMemo A ident evict t dst data key nonce ad).1 = aesGCMEncrypt A dst data key nonce ad ∧
+        (aesGCMDecryptMemo A ident evict t dst data key nonce ad).1 = aesGCMDecrypt A dst data key nonce ad ∧
+        Sound ident id (aesGCMEncryptMemo A ident evict t dst data key nonce ad).2 ∧
+        Sound ident id (aesGCMDecryptMemo A ident evict t dst data key nonce ad).2) ∧
+    (∀ c c', identFull c = identFull c' → c = c') ∧
+    ((∀ k j n, k.length + j ≤ 32 → identNoLen ⟨k ++ List.replicate j 0, n⟩ = identNoLen ⟨k, n⟩) ∧
+      (∀ p x y n, p.length = 16 → x.length = y.length → identFirst16 ⟨p ++ x, n⟩ = identFirst16 ⟨p ++ y, n⟩) ∧
+      (∀ p x y n, p.length = 24 → x.length = y.length → identFirst24 ⟨p ++ x, n⟩ = identFirst24 ⟨p ++ y, n⟩) ∧
+      (∀ x y s n, s.length = 16 → x.length = y.length → identLast16 ⟨x ++ s, n⟩ = identLast16 ⟨y ++ s, n⟩) ∧
+      (∀ k n n', identNoNonceLen ⟨k, n⟩ = identNoNonceLen ⟨k, n'⟩) ∧
+      (∀ k iv iv', identNoIV ⟨k, iv⟩ = identNoIV ⟨k, iv'⟩)) ∧
+    (∀ dst1 d1 key1 nonce1 ad1 dst2 d2 key2 nonce2 ad2,
+      keyOK key1 = true → nonce1.length ≠ 0 → keyOK key2 = true → nonce2.length ≠ 0 →
+      ident ⟨key1, nonce1.length⟩ = ident ⟨key2, nonce2.length⟩ →
+      (aesGCMEncryptMemo A ident evict [] dst1 d1 key1 nonce1 ad1).1 = aesGCMEncrypt A dst1 d1 key1 nonce1 ad1 ∧
+      (aesGCMEncryptMemo A ident evict (aesGCMEncryptMemo A ident evict [] dst1 d1 key1 nonce1 ad1).2
+          dst2 d2 key2 nonce2 ad2).1 =
+        (if nonce2.length ≠ nonce1.length then .panic
+         else .ok (appendInto dst2 (A.sealF key1 nonce2 d2 ad2))) ∧
+      (aesGCMDecryptMemo A ident evict (aesGCMEncryptMemo A ident evict [] dst1 d1 key1 nonce1 ad1).2
+          dst2 d2 key2 nonce2 ad2).1 = openWith A ⟨key1, nonce1.length⟩ dst2 d2 nonce2 ad2) ∧
+    (∀ dst1 p1 key1 iv1 dst2 p2 key2 iv2, keyOK key1 = true → keyOK key2 = true →
+      identC ⟨key1, iv1⟩ = identC ⟨key2, iv2⟩ →
+      (aesCBCEncryptMemo C identC evictC [] dst1 p1 key1 iv1).1 = aesCBCEncrypt C dst1 p1 key1 iv1 ∧
+      (aesCBCEncryptMemo C identC evictC (aesCBCEncryptMemo C identC evictC [] dst1 p1 key1 iv1).2
+          dst2 p2 key2 iv2).1 = aesCBCEncrypt C dst2 p2 key1 iv1) := by
+  refine ⟨fun hinj hev t ht dst data key nonce ad =>
+      gcm_memo_transparent A ident evict hinj hev t ht dst data key nonce ad,
+    identFull_injective,
+    ⟨identNoLen_collides, identFirst16_collides, identFirst24_collides, identLast16_collides,
+      identNoNonceLen_collides, identNoIV_collides⟩, ?_, ?_⟩
+  · intro dst1 d1 key1 nonce1 ad1 dst2 d2 key2 nonce2 ad2 hk1 hn1 hk2 hn2 hid
+    exact gcm_memo_second_call_uses_first A ident evict dst1 d1 key1 nonce1 ad1 dst2 d2 key2 nonce2 ad2
+      hk1 hn1 hk2 hn2 hid
+  · intro dst1 p1 key1 iv1 dst2 p2 key2 iv2 hk1 hk2 hid
+    exact cbc_memo_second_call_uses_first C identC evictC dst1 p1 key1 iv1 dst2 p2 key2 iv2 hk1 hk2 hid
+
 /-! ### The executable primitives are SPECIFIED, not only invertible.
 "Lean AES/GCM compute the same function as crypto/aes, crypto/cipher" stays a TEST (vectors,
 every ciphertext of every run).  What is proved is that the Lean primitives are the textbook
@@ -491,5 +583,33 @@ example : aesCBCEncrypt toyCipher (List.replicate 16 0) (List.range 16) (List.re
 example : pkcs7UnPaddingPub [1, 2, 2] 3 = .ok [1] ∧ pkcs7UnPaddingPub [1, 3, 2] 3 = .err "padbytes" ∧
     pkcs7UnPaddingPub [1, 2, 4] 3 = .err "padlen" ∧ pkcs7UnPaddingPub [1, 2, 2] 2 = .err "multiple" ∧
     pkcs7UnPaddingPub [2, 2] 2 = .ok [] := by decide
+
+/-- the memo theorems bite on the model the oracle runs: C08-J's identity conflates a 16-byte
+key with its zero extension to 24 bytes, both are valid keys, and the Lean AES-GCM seals the
+same message DIFFERENTLY under them (AES-128 vs AES-192) — so by
+`c08_memo_keyed_on_part_of_the_input` (3) the second call of the two-call history is answered
+with a ciphertext that is not `AESGCMEncrypt`'s; likewise the memo without the nonce size
+panics where `AESGCMEncrypt` succeeds. -/
+example :
+    Memo.identNoLen ⟨List.range 16, 12⟩ = Memo.identNoLen ⟨List.range 16 ++ List.replicate 8 0, 12⟩ ∧
+    keyOK (List.range 16) = true ∧ keyOK (List.range 16 ++ List.replicate 8 0) = true ∧
+    (Memo.aesGCMEncryptMemo aesGCM Memo.identNoLen id
+        (Memo.aesGCMEncryptMemo aesGCM Memo.identNoLen id [] (fill 19) [1, 2, 3] (List.range 16)
+          (List.replicate 12 1) [4]).2
+        (fill 19) [1, 2, 3] (List.range 16 ++ List.replicate 8 0) (List.replicate 12 1) [4]).1
+      ≠ aesGCMEncrypt aesGCM (fill 19) [1, 2, 3] (List.range 16 ++ List.replicate 8 0) (List.replicate 12 1) [4] := by
+  decide +kernel
+
+example :
+    (Memo.aesGCMEncryptMemo toyAEAD Memo.identNoNonceLen id
+        (Memo.aesGCMEncryptMemo toyAEAD Memo.identNoNonceLen id [] (fill 17) [9] (List.range 16)
+          (List.replicate 12 1) []).2
+        (fill 17) [9] (List.range 16) (List.replicate 8 1) []).1 = .panic ∧
+    aesGCMEncrypt toyAEAD (fill 17) [9] (List.range 16) (List.replicate 8 1) [] = .ok ([9] ++ List.replicate 16 0) := by
+  decide +kernel
+
+/-- and the whole-configuration identity is a sound start: the empty table is `Sound`. -/
+example : Memo.Sound Memo.identFull id ([] : Memo.Table (Bytes × Nat) Memo.GcmCfg) := by
+  intro k o h; cases h
 
 end Golib.C08
